@@ -262,6 +262,10 @@ def detector_strategy(draw, shape, steps, name="det0", kinds=("field", "energy",
             d["components"] = [c for c in comps if c in sel]
         if kind == "phasor":
             d["wl_cells"] = [draw(st.sampled_from([8.0, 10.0, 16.0]))]
+            # a phasor detector that is never on is rejected at placement with a clear error (its window sums to 0):
+            # documented precondition, so generate at least one active step
+            if not switch_on_steps(d["switch"], steps):
+                d["switch"] = {}
     return d
 
 
